@@ -376,6 +376,31 @@ PROPS = {
         "level_note": "Trusted: nothing beyond equality of the repository's own outputs; goroutine scheduling in the parallel part is not owned by the harness.",
         "technique": "property-based testing (rapid): metamorphic relations (repeat / interleave / reseed / parallel) with exact-equality oracle",
     },
+    "C10": {
+        "title": "engine game = last position command",
+        "run": "^TestC10_",
+        "level": "exploration",
+        "shards": 16,
+        "timeout": 600,
+        "thorough_scale": 10,
+        "thorough_timeout": 2400,
+        "rule": "C10/position: scripts of 2-8 position/ucinewgame commands sent to an in-process UCI driver; each follow-up is drawn "
+                "as: verbatim repeat, extension by 1-3 moves, truncation, other line from a common prefix, fresh start position or FEN "
+                "(with clocks and move numbers), a FEN that TEXTUALLY extends the previous one (longer last field, with or without "
+                "the old moves), or ucinewgame. After every command (isready/readyok barrier): Engine.Position() must equal the "
+                "oracle FEN of the game the last command describes; every observable of Engine.Board() (position, hash, clocks, ply, "
+                "flags, last moves, String() incl. repetition count, result) must equal those of a FRESH engine+driver given only that "
+                "command; after the final command 0-6 further moves are played on both boards in lock-step comparing everything after "
+                "each (hidden repetition history) and judging results with the C05 oracle. A driver that shuts down or stops "
+                "answering isready on a valid command is a violation. Non-trivial = distinct scripts of >= 2 commands in which at "
+                "least one command textually continues the previous one (the driver's continuation shortcut is taken). "
+                "evaluations = scripts.",
+        "assumptions": COMMON_ASSUMPTIONS + ["liveness judged with a 20 s grace period after a protocol barrier"],
+        "level_text": "Exploration: ~5k command scripts per quick run, with a model-based oracle (the game the last command "
+                      "describes) and a metamorphic one (incrementally extended engine vs fresh set-up of the same command).",
+        "level_note": "Trusted: harness/oracle for the described game; a fresh engine+driver of the repository as the metamorphic twin.",
+        "technique": "property-based testing (rapid): generated command scripts, model-based + metamorphic oracle (extension == set-up from scratch)",
+    },
 }
 
 # Properties not claimed, with the reason (kept current).
